@@ -72,6 +72,7 @@ EXTRAS = ["et=oic.d.sensor", "et=tag:x", "foo=bar", "foo=baz", "v=1", "v=2", "ob
 FORBIDDEN = ["rt=x", "href=/x", "page=1", "count=2", "anchor=/a"]
 BASES = ["coap://[2001:db8::1]:99", "coap://h.example", "coap://h.example/pre/", "coaps://h2.example:1234"]
 BAD_BASES = ["coap://[", "coap://[::1", "http://[fe80::1%25eth0"]
+BAD_REFS = ["//[", "coap://[::1/x", "//[/s"]  # link targets / anchors that are no URI references (nothing resolves them)
 HREFS = ["/s/t", "/s/h", "/s/t?x=1", "s/u", "/a", "/a/", ""]
 RTS = ["temp", "hum", "temp x", "core.s", "x"]
 IFS = ["core.s", "core.a core.s", "sensor"]
@@ -350,11 +351,23 @@ def gen_main(r, tier):
                     link[1].append(["title", "long " + "t" * r.choice([150, 280])])
             while op.get("links") and len(lf_write(op["links"]).encode("utf-8")) > MAX_BODY:
                 op["links"].pop()
+    if r.chance(0.04):
+        # a link whose target (or anchor) is no URI reference at all: refused or filed, everybody's look-ups go on working
+        cand = [op for op in ops if op.get("links") and op["op"] in ("reg", "upd") and "raw" not in op]
+        if cand:
+            op = r.choice(cand)
+            link = r.choice(op["links"])
+            if r.chance(0.7):
+                link[0] = r.choice(BAD_REFS)
+            else:
+                link[1] = [a for a in link[1] if a[0] != "anchor"] + [["anchor", r.choice(BAD_REFS)]]
+            op["valid"] = False
     if r.chance(0.05):
         # a registrant with very many resources (an aggregating gateway): hundreds of links in one registration or update
         cand = [op for op in ops if op.get("links") is not None and op["op"] in ("reg", "upd") and "raw" not in op]
         for op in (r.sample(cand, min(len(cand), r.choice([1, 1, 2]))) if cand else []):
-            op["links"] = [["/k%d" % i, []] for i in range(r.choice([200, 255, 256, 257, 300, 520]))]
+            # (at most 450: the body travels in one datagram, of which the library reads at most 4096 bytes)
+            op["links"] = [["/k%d" % i, []] for i in range(r.choice([200, 255, 256, 257, 300, 450]))]
     net = faults.swarm(r, kinds=("drop", "dup", "delay"), fault_free=0.55, heavy=0.05)
     if net.get("delay_max", 0) > 3.0:
         net["delay_max"] = 3.0
@@ -1036,6 +1049,10 @@ def execute(sim, scn):
                 resp.payload.hex() if resp is not None else None)
         return tr, resp, rcode, loc, cbase[min(c, nclients - 1)]
 
+    def bad_refs(op):
+        return [h for h, a in (op.get("links") or []) if h in BAD_REFS] + \
+               [v for h, a in (op.get("links") or []) for k, v in a if k == "anchor" and v in BAD_REFS]
+
     def body_of(op):
         if "raw" in op:
             return bytes.fromhex(op["raw"])
@@ -1072,6 +1089,9 @@ def execute(sim, scn):
             # filed although it is no URI reference: from now on the directory cannot compose the targets of ANY
             # look-up that would include this registration -- everybody's look-ups fail
             violation("C20/registration-with-unusable-base-accepted", query=op["q"], answered="%d.%02d" % rcode)
+            raise Stop()
+        if bad_refs(op):
+            violation("C20/registration-with-unusable-link-accepted", query=op["q"], links=bad_refs(op), answered="%d.%02d" % rcode)
             raise Stop()
         if key is None or len(lts) > 1 or len(bases) > 1 or (lts and plain_int(lts[0]) is None) or \
                 (bases and bases[0] is None) or "raw" in op or op.get("cf") != LINKFORMAT:
@@ -1151,6 +1171,9 @@ def execute(sim, scn):
         bases = [v for k, v in pairs if k == "base"]
         if any(b in BAD_BASES for b in bases):
             violation("C20/registration-with-unusable-base-accepted", query=op["q"], answered="%d.%02d" % rcode)
+            raise Stop()
+        if code == PUT and bad_refs(op):
+            violation("C20/registration-with-unusable-link-accepted", query=op["q"], links=bad_refs(op), answered="%d.%02d" % rcode)
             raise Stop()
         if len(lts) > 1 or len(bases) > 1 or (lts and plain_int(lts[0]) is None) or (bases and bases[0] is None) or \
                 any(k in ("ep", "d") for k, _ in pairs) or "raw" in op or (code == PUT and op.get("cf") != LINKFORMAT) \
